@@ -67,3 +67,7 @@ package time
 //@   nopanic
 //@   ensures err == nil
 //@   ensures instant_only: result0 == xor32(wrapu32(unano(inst(t))), wrapu32(div(unano(inst(t)), 4294967296)))
+
+//@ func builtinAttrNames
+//@   prop C03
+//@   ensures sorted(result)
